@@ -137,9 +137,9 @@ def _kron(x, y):
 
 def _with_out(cplx, x, y, s):
     """out= buffer: the returned object must be the buffer and hold the product."""
-    buf = torch.zeros(2, *s, dtype=torch.double)
+    buf = torch.full((2,) + tuple(s), 0.75, dtype=torch.double)       # a reused workspace: whatever it held is overwritten
     if isinstance(x, st.SymTensor):
-        buf = st.SymTensor(st._obj(buf))
+        buf = st.fresh((2,) + tuple(s), "old_buffer_contents")
     r = cplx.scalar_mult(x, y, out=buf)
     if r is not buf:
         raise AssertionError("scalar_mult(out=buf) did not return the buffer")
